@@ -114,11 +114,14 @@ package funcs
 // set_measurement(v [, true]): a string value becomes the measurement; with `true` and a key
 // argument the key is dropped afterwards; any other value type changes nothing
 //@ func SetMeasurement
-//@ ensures[C11] result == nil
+//@ ensures[C11] len(funcExpr.Param) == 1 || len(funcExpr.Param) == 2 ==> result == nil
 //@ ensures[C11] ncalls(RunStmt) == 1 && (callres(RunStmt, 0, 2) != nil || callres(RunStmt, 0, 1) != ast.String) ==> ncalls(setMeasurement) == 0
 //@ ensures[C11] ncalls(RunStmt) == 1 && callres(RunStmt, 0, 2) == nil && callres(RunStmt, 0, 1) == ast.String && typeis(callres(RunStmt, 0, 0), string) ==> ncalls(setMeasurement) == 1 && callarg(setMeasurement, 0, 1) == callres(RunStmt, 0, 0).(string)
 //@ ensures[C11] callres(RunStmt, 0, 2) != nil ==> ncalls(deletePtKey) == 0
 //@ ensures[C11] ncalls(deletePtKey) <= 1 && (ncalls(deletePtKey) == 1 ==> len(funcExpr.Param) == 2 && funcExpr.Param[1].NodeType == ast.TypeBoolLiteral && funcExpr.Param[1].elem.(*ast.BoolLiteral).Val && callarg(deletePtKey, 0, 1) == callres(getKeyName, 0, 0))
+// delete_key drops the point key named like the *variable* given as name: a name given as a string constant deletes nothing
+//@ ensures[C11] ncalls(deletePtKey) == 1 ==> funcExpr.Param[0].NodeType == ast.TypeIdentifier || funcExpr.Param[0].NodeType == ast.TypeAttrExpr
+//@ ensures[C11] callres(RunStmt, 0, 2) == nil && len(funcExpr.Param) == 2 && funcExpr.Param[1].NodeType == ast.TypeBoolLiteral && funcExpr.Param[1].elem.(*ast.BoolLiteral).Val && funcExpr.Param[0].NodeType == ast.TypeIdentifier ==> ncalls(deletePtKey) == 1
 
 // len(v): the length of a map, list or string, 0 for everything else; the point is not the destination
 //@ func Len
@@ -148,6 +151,7 @@ package funcs
 //@ func URLDecode
 //@ ensures[C11] noSubject() ==> result == nil && ncalls(addKey2PtWithVal) == 0
 //@ ensures[C11] ncalls(UrldecodeHandle) == 1 ==> callarg(UrldecodeHandle, 0, 0) == subject()
+//@ ensures[C11] ncalls((*Task).GetKeyConv2Str) == 1 && !noSubject() ==> ncalls(UrldecodeHandle) == 1
 // an undecodable text is a script error and writes nothing
 //@ ensures[C11] ncalls(UrldecodeHandle) == 1 && callres(UrldecodeHandle, 0, 1) != nil ==> result != nil && ncalls(addKey2PtWithVal) == 0
 //@ ensures[C11] ncalls(UrldecodeHandle) == 1 && callres(UrldecodeHandle, 0, 1) == nil ==> strOut(callres(getKeyName, 0, 0), callres(UrldecodeHandle, 0, 0))
